@@ -463,3 +463,57 @@ Section Matrices.
     - cbn [nth]. rewrite E0, Em. ring.
   Qed.
 End Matrices.
+
+(* ------------------------------------------------------------------ any phase function *)
+(** The statements above use an abstract u with u u^* = 1 and read the rational multiples of
+    theta as powers of u.  The statements below are the direct reading: [ph q] stands for
+    exp(i q theta), i.e. ANY *-homomorphism from (Q, +) to the unit-modulus elements of K.  For
+    K = C and every real theta, q |-> exp(i q theta) is one (Qubitization.QubitReal). *)
+Section Character.
+  Context {K : Scalar} {L : ScalarLaws K}.
+  Local Open Scope K_scope.
+  Add Ring KringQubC : (s_ring K L).
+
+  Record character (ph : Q -> K) : Prop := {
+    ch_proper : forall q q', (q == q')%Q -> ph q = ph q';
+    ch_0 : ph 0%Q = 1;
+    ch_add : forall a b, ph (a + b)%Q = ph a * ph b;
+    ch_opp : forall a, ph (- a)%Q = (ph a)^* }.
+
+  (** the product of the gate phases is the phase of the sum of the gate angles *)
+  Lemma run_phK_char ph gs : character ph -> forall b, run_phK ph gs b = ph (run_phq gs b).
+  Proof.
+    intros H. induction gs as [|g gs IH]; intros b; cbn [run_phK run_phq].
+    - symmetry. apply (ch_0 ph H).
+    - rewrite IH, (ch_add ph H). reflexivity.
+  Qed.
+
+  Lemma char_pm ph (x : bool) (q : Q) : character ph ->
+    (q == if x then 1 else -1)%Q -> ph q = if x then ph 1%Q else (ph 1%Q)^*.
+  Proof.
+    intros H E. rewrite (ch_proper ph H _ _ E). destruct x; [reflexivity|].
+    rewrite <- (ch_opp ph H). apply (ch_proper ph H). vm_compute. reflexivity.
+  Qed.
+
+  (** c-phase method, every n >= 1, every phase function:
+      product of the gate matrices = exp(i theta (2|0..0><0..0| - 1)) *)
+  Theorem cphase_matrix_char ph n : character ph -> (1 <= n)%nat ->
+    meq n (circuit_mx n ph (cphase_circuit ideal_cphase n)) (shift_spec (ph 1%Q)).
+  Proof.
+    intros H Hn r c Hr Hc. rewrite circuit_mx_mono by assumption.
+    destruct (cphase_phase_sum n c Hn Hc) as [Eb Eq]. rewrite Eb. unfold shift_spec.
+    destruct (beq r c); [|reflexivity].
+    rewrite run_phK_char by assumption. unfold all_false. apply char_pm; assumption.
+  Qed.
+
+  (** auxiliary method: the column of |0,c> *)
+  Theorem aux_matrix_char ph n r c : character ph -> length r = Datatypes.S n -> length c = n ->
+    circuit_mx (Datatypes.S n) ph (aux_circuit ideal_aux n) r (false :: c)
+    = if beq r (false :: c) then (if all_false c then ph 1%Q else (ph 1%Q)^*) else 0.
+  Proof.
+    intros H Hr Hc. rewrite circuit_mx_mono by (cbn; congruence).
+    destruct (aux_phase_sum n c Hc) as [Eb Eq]. rewrite Eb.
+    destruct (beq r (false :: c)); [|reflexivity].
+    rewrite run_phK_char by assumption. unfold all_false. apply char_pm; assumption.
+  Qed.
+End Character.
